@@ -1,4 +1,5 @@
 //! Passthrough-filesystem monitors: C05 C06 C08 C09 C15 C16 C18 (and the stack half of C12).
+mod c06;
 mod c08;
 mod c15;
 mod c16;
@@ -13,6 +14,7 @@ fn main() {
     let mut rep = Report::new(&args);
     vkit::xport::install_panic_hook();
     match args.prop.as_str() {
+        "C06" => c06::run(&args, &mut rep),
         "C08" => c08::run(&args, &mut rep),
         "C15" => c15::run(&args, &mut rep),
         "C16" => c16::run(&args, &mut rep),
